@@ -603,6 +603,70 @@ pub mod hashbrown {
         pub fn drain(&mut self) -> std::vec::Drain<'_, (K, V)> {
             self.items.drain(..)
         }
+        pub fn values_mut(&mut self) -> impl Iterator<Item = &mut V> {
+            self.items.iter_mut().map(|it| &mut it.1)
+        }
+        pub fn entry(&mut self, k: K) -> Entry<'_, K, V> {
+            Entry { map: self, key: k }
+        }
+    }
+    /// The part of the entry API that plain code uses (`entry(k).or_insert(v)` and friends).
+    pub struct Entry<'a, K, V> {
+        map: &'a mut HashMap<K, V>,
+        key: K,
+    }
+    impl<'a, K: Eq, V> Entry<'a, K, V> {
+        pub fn key(&self) -> &K {
+            &self.key
+        }
+        pub fn or_insert_with<F: FnOnce() -> V>(self, f: F) -> &'a mut V {
+            let p = match self.map.items.iter().position(|it| it.0 == self.key) {
+                Some(p) => p,
+                None => {
+                    self.map.items.push((self.key, f()));
+                    self.map.items.len() - 1
+                }
+            };
+            &mut self.map.items[p].1
+        }
+        pub fn or_insert(self, v: V) -> &'a mut V {
+            self.or_insert_with(|| v)
+        }
+        pub fn or_default(self) -> &'a mut V
+        where
+            V: Default,
+        {
+            self.or_insert_with(V::default)
+        }
+        pub fn and_modify<F: FnOnce(&mut V)>(self, f: F) -> Self {
+            if let Some(it) = self.map.items.iter_mut().find(|it| it.0 == self.key) {
+                f(&mut it.1);
+            }
+            self
+        }
+    }
+    impl<K: Eq, V> std::iter::FromIterator<(K, V)> for HashMap<K, V> {
+        fn from_iter<I: IntoIterator<Item = (K, V)>>(iter: I) -> Self {
+            let mut m = HashMap::new();
+            for (k, v) in iter {
+                m.insert(k, v);
+            }
+            m
+        }
+    }
+    impl<K: Eq, V> Extend<(K, V)> for HashMap<K, V> {
+        fn extend<I: IntoIterator<Item = (K, V)>>(&mut self, iter: I) {
+            for (k, v) in iter {
+                self.insert(k, v);
+            }
+        }
+    }
+    impl<K, V> IntoIterator for HashMap<K, V> {
+        type Item = (K, V);
+        type IntoIter = std::vec::IntoIter<(K, V)>;
+        fn into_iter(self) -> Self::IntoIter {
+            self.items.into_iter()
+        }
     }
 }
 
@@ -640,6 +704,46 @@ pub mod dashmap {
         }
         pub mod multiple {
             pub use super::super::RefMulti;
+        }
+    }
+
+    pub struct Entry<'a, K, V> {
+        map: &'a DashMap<K, V>,
+        shard: usize,
+        g: ShardGuard<'a>,
+        key: K,
+    }
+    impl<'a, K: Eq + Hash, V> Entry<'a, K, V> {
+        pub fn key(&self) -> &K {
+            &self.key
+        }
+        pub fn or_insert_with(self, f: impl FnOnce() -> V) -> RefMut<'a, K, V> {
+            let d = unsafe { self.map.data(self.shard) };
+            let p = match d.iter().position(|it| it.0 == self.key) {
+                Some(p) => p,
+                None => {
+                    d.push((self.key, f()));
+                    d.len() - 1
+                }
+            };
+            let it = &mut d[p];
+            RefMut { _g: self.g, k: &it.0 as *const K, v: &mut it.1 as *mut V }
+        }
+        pub fn or_insert(self, v: V) -> RefMut<'a, K, V> {
+            self.or_insert_with(|| v)
+        }
+        pub fn or_default(self) -> RefMut<'a, K, V>
+        where
+            V: Default,
+        {
+            self.or_insert_with(V::default)
+        }
+        pub fn and_modify(self, f: impl FnOnce(&mut V)) -> Self {
+            let d = unsafe { self.map.data(self.shard) };
+            if let Some(it) = d.iter_mut().find(|it| it.0 == self.key) {
+                f(&mut it.1);
+            }
+            self
         }
     }
 
@@ -810,6 +914,12 @@ pub mod dashmap {
             let d = unsafe { self.data(i) };
             let it = d.iter_mut().find(|it| &it.0 == k)?;
             Some(RefMut { _g: g, k: &it.0 as *const K, v: &mut it.1 as *mut V })
+        }
+        /// `entry(k)`: takes the shard's write lock like the real one and keeps it until the entry is consumed.
+        pub fn entry(&self, k: K) -> Entry<'_, K, V> {
+            let i = self.verif_shard_of(&k);
+            let g = self.wr(i);
+            Entry { map: self, shard: i, g, key: k }
         }
         pub fn len(&self) -> usize {
             let mut n = 0;
